@@ -733,13 +733,20 @@ fn prim_val(p: Prim, t: &mut Tape, cfg: &ValCfg) -> Val {
     }
 }
 
-fn string_val(t: &mut Tape, cfg: &ValCfg, bound: Option<u32>, budget: &mut usize) -> String {
+fn string_val(t: &mut Tape, cfg: &ValCfg, bound: Option<u32>, budget: &mut usize, wide: bool) -> String {
     let len = pick_len(t, cfg, bound, budget, true);
     let w = t.next();
     let mut s = String::with_capacity(len);
     let multi = w % 7 == 0;
+    // wide strings: also characters of 3 UTF-8 bytes (one UTF-16 unit) and of the supplementary planes
+    // (4 UTF-8 bytes, a surrogate pair in UTF-16)
+    let astral = wide && w % 5 == 0;
     for i in 0..len {
-        if multi && i % 3 == 1 && s.len() + 2 <= len {
+        if astral && i % 4 == 2 && s.len() + 4 <= len {
+            s.push(if i % 8 == 2 { '\u{1F600}' } else { '\u{1D11E}' });
+        } else if astral && i % 4 == 0 && s.len() + 3 <= len {
+            s.push('\u{8A9E}');
+        } else if multi && i % 3 == 1 && s.len() + 2 <= len {
             s.push('é'); // two UTF-8 bytes
         } else if s.len() < len {
             s.push((b'a' + ((w as usize + i * 7) % 26) as u8) as char);
@@ -777,7 +784,8 @@ fn disc_for_case(u: &UnionDef, ci: usize, w: u32) -> i64 {
 pub fn make_val(ty: &Ty, t: &mut Tape, cfg: &ValCfg, budget: &mut usize) -> Val {
     match ty {
         Ty::Prim(p) => prim_val(*p, t, cfg),
-        Ty::Str(b) | Ty::WStr(b) => Val::Str(string_val(t, cfg, *b, budget)),
+        Ty::Str(b) => Val::Str(string_val(t, cfg, *b, budget, false)),
+        Ty::WStr(b) => Val::Str(string_val(t, cfg, *b, budget, true)),
         Ty::Enum(e) => Val::Enum(e.labels[t.next() as usize % e.labels.len()].1),
         Ty::Struct(s) => Val::Struct(
             s.members
